@@ -263,6 +263,82 @@ pub mod core {
                         Err(r as u8)
                     }
                 }
+
+                /// Reported like `compare_exchange` (the event does not distinguish the weak form).
+                #[inline(always)]
+                #[track_caller]
+                pub fn compare_exchange_weak(
+                    &self,
+                    cur: u8,
+                    new: u8,
+                    s: Ordering,
+                    f: Ordering,
+                ) -> Result<u8, u8> {
+                    let r = report(
+                        Kind::Cas,
+                        self as *const _ as usize,
+                        cur as u64,
+                        new as u64,
+                        ord_code(s),
+                        ord_code(f),
+                        8,
+                        &mut || match self.inner.compare_exchange_weak(cur, new, s, f) {
+                            Ok(v) => 256 + v as u64,
+                            Err(v) => v as u64,
+                        },
+                    );
+                    if r >= 256 {
+                        Ok((r - 256) as u8)
+                    } else {
+                        Err(r as u8)
+                    }
+                }
+                /// Unconditional read-modify-write operations are reported as a
+                /// compare-exchange that expects "anything" (`a == 0xFFFF`) and
+                /// always succeeds; `b` is the operand.
+                #[inline(always)]
+                #[track_caller]
+                pub fn swap(&self, v: u8, o: Ordering) -> u8 {
+                    (report(Kind::Cas, self as *const _ as usize, 0xFFFF, v as u64, ord_code(o), ord_code(o), 8, &mut || {
+                        256 + self.inner.swap(v, o) as u64
+                    }) - 256) as u8
+                }
+                #[inline(always)]
+                #[track_caller]
+                pub fn fetch_or(&self, v: u8, o: Ordering) -> u8 {
+                    (report(Kind::Cas, self as *const _ as usize, 0xFFFF, v as u64, ord_code(o), ord_code(o), 8, &mut || {
+                        256 + self.inner.fetch_or(v, o) as u64
+                    }) - 256) as u8
+                }
+                #[inline(always)]
+                #[track_caller]
+                pub fn fetch_and(&self, v: u8, o: Ordering) -> u8 {
+                    (report(Kind::Cas, self as *const _ as usize, 0xFFFF, v as u64, ord_code(o), ord_code(o), 8, &mut || {
+                        256 + self.inner.fetch_and(v, o) as u64
+                    }) - 256) as u8
+                }
+                #[inline(always)]
+                #[track_caller]
+                pub fn fetch_add(&self, v: u8, o: Ordering) -> u8 {
+                    (report(Kind::Cas, self as *const _ as usize, 0xFFFF, v as u64, ord_code(o), ord_code(o), 8, &mut || {
+                        256 + self.inner.fetch_add(v, o) as u64
+                    }) - 256) as u8
+                }
+                #[inline(always)]
+                #[track_caller]
+                pub fn fetch_sub(&self, v: u8, o: Ordering) -> u8 {
+                    (report(Kind::Cas, self as *const _ as usize, 0xFFFF, v as u64, ord_code(o), ord_code(o), 8, &mut || {
+                        256 + self.inner.fetch_sub(v, o) as u64
+                    }) - 256) as u8
+                }
+                #[inline(always)]
+                pub fn get_mut(&mut self) -> &mut u8 {
+                    self.inner.get_mut()
+                }
+                #[inline(always)]
+                pub fn into_inner(self) -> u8 {
+                    self.inner.into_inner()
+                }
             }
 
             #[repr(transparent)]
@@ -334,6 +410,69 @@ pub mod core {
                     } else {
                         Err(r != 0)
                     }
+                }
+
+                /// Reported like `compare_exchange` (the event does not distinguish the weak form).
+                #[inline(always)]
+                #[track_caller]
+                pub fn compare_exchange_weak(
+                    &self,
+                    cur: bool,
+                    new: bool,
+                    s: Ordering,
+                    f: Ordering,
+                ) -> Result<bool, bool> {
+                    let r = report(
+                        Kind::Cas,
+                        self as *const _ as usize,
+                        cur as u64,
+                        new as u64,
+                        ord_code(s),
+                        ord_code(f),
+                        1,
+                        &mut || match self.inner.compare_exchange_weak(cur, new, s, f) {
+                            Ok(v) => 256 + v as u64,
+                            Err(v) => v as u64,
+                        },
+                    );
+                    if r >= 256 {
+                        Ok(r - 256 != 0)
+                    } else {
+                        Err(r != 0)
+                    }
+                }
+                /// See `AtomicU8::swap`.
+                #[inline(always)]
+                #[track_caller]
+                pub fn swap(&self, v: bool, o: Ordering) -> bool {
+                    report(Kind::Cas, self as *const _ as usize, 0xFFFF, v as u64, ord_code(o), ord_code(o), 1, &mut || {
+                        256 + self.inner.swap(v, o) as u64
+                    }) - 256
+                        != 0
+                }
+                #[inline(always)]
+                #[track_caller]
+                pub fn fetch_or(&self, v: bool, o: Ordering) -> bool {
+                    report(Kind::Cas, self as *const _ as usize, 0xFFFF, v as u64, ord_code(o), ord_code(o), 1, &mut || {
+                        256 + self.inner.fetch_or(v, o) as u64
+                    }) - 256
+                        != 0
+                }
+                #[inline(always)]
+                #[track_caller]
+                pub fn fetch_and(&self, v: bool, o: Ordering) -> bool {
+                    report(Kind::Cas, self as *const _ as usize, 0xFFFF, v as u64, ord_code(o), ord_code(o), 1, &mut || {
+                        256 + self.inner.fetch_and(v, o) as u64
+                    }) - 256
+                        != 0
+                }
+                #[inline(always)]
+                pub fn get_mut(&mut self) -> &mut bool {
+                    self.inner.get_mut()
+                }
+                #[inline(always)]
+                pub fn into_inner(self) -> bool {
+                    self.inner.into_inner()
                 }
             }
 
